@@ -44,7 +44,7 @@ theorem agree_append {ns ns' : Nodes} {sigs : List Sig} {env : List Val} (ha : A
 /-! ### declarations -/
 
 theorem stepDecl_frame {B B1 : BState} {ty : Ty} {init : Expr} (h : stepDecl B ty init = some B1) (hw : WF B) :
-    WF B1 ∧ Frame B B1 ∧ B1.lastCond = B.lastCond ∧ B1.clash = B.clash ∧
+    WF B1 ∧ Frame B B1 ∧ B1.lastCond = B.lastCond ∧
     ∃ ns i, buildExpr B.sigs B.nodes init = some (ns, i, ty) ∧ B1.nodes = ns ∧
       B1.sigs = B.sigs ++ [{ ty := ty, driver := i, initScope := curScopeId B }] := by
   unfold stepDecl at h
@@ -59,7 +59,7 @@ theorem stepDecl_frame {B B1 : BState} {ty : Ty} {init : Expr} (h : stepDecl B t
       simp only [Option.some.injEq] at h
       subst h
       obtain ⟨e1, e2⟩ := buildExpr_ext init _ _ _ _ hb hw.sigs
-      refine ⟨⟨?_, ?_, ?_, ?_, hw.pos⟩, ⟨e1, rfl, Nat.le_refl _⟩, rfl, rfl, ns, i, rfl, rfl, rfl⟩
+      refine ⟨⟨?_, ?_, ?_, ?_, hw.pos⟩, ⟨e1, rfl, Nat.le_refl _⟩, rfl, ns, i, rfl, rfl, rfl⟩
       · intro x s hx
         simp only at hx
         rw [List.getElem?_append] at hx
@@ -83,7 +83,7 @@ theorem stepDecl_frame {B B1 : BState} {ty : Ty} {init : Expr} (h : stepDecl B t
 theorem stepDecl_active {B B1 : BState} {ty : Ty} {init : Expr} {env : List Val} {v : Val}
     (h : stepDecl B ty init = some B1) (hw : WF B) (ha : Agree ρ B.nodes B.sigs env) (hev : evalE env init = some v) :
     Agree ρ B1.nodes B1.sigs (env ++ [v]) := by
-  obtain ⟨_, _, _, _, ns, i, hb, hn, hs⟩ := stepDecl_frame h hw
+  obtain ⟨_, _, _, ns, i, hb, hn, hs⟩ := stepDecl_frame h hw
   obtain ⟨e1, _⟩ := buildExpr_ext init _ _ _ _ hb hw.sigs
   obtain ⟨g1, g2⟩ := buildExpr_sound init _ _ _ _ v hb ha hw.sigs hev
   rw [hn, hs]
@@ -91,13 +91,13 @@ theorem stepDecl_active {B B1 : BState} {ty : Ty} {init : Expr} {env : List Val}
 
 theorem stepDecl_keeps {B B1 : BState} {ty : Ty} {init : Expr} (tid : Nat) (h : stepDecl B ty init = some B1) (hw : WF B) :
     Keeps ρ tid B B1 := by
-  obtain ⟨_, hf, _, _, ns, i, _, _, hs⟩ := stepDecl_frame h hw
+  obtain ⟨_, hf, _, ns, i, _, _, hs⟩ := stepDecl_frame h hw
   exact keeps_of_append tid hw hf.ext _ hs
 
 /-! ### defaults -/
 
 theorem stepDefault_frame {B B1 : BState} {ty : Ty} {d : Val} (h : stepDefault B ty d = some B1) (hw : WF B) :
-    WF B1 ∧ Frame B B1 ∧ B1.lastCond = B.lastCond ∧ B1.clash = B.clash ∧ d.length = ty.width ∧
+    WF B1 ∧ Frame B B1 ∧ B1.lastCond = B.lastCond ∧ d.length = ty.width ∧
     ∃ s, B1.sigs = B.sigs ++ [s] ∧ s.ty = ty ∧ s.driver < B1.nodes.size ∧ valAt ρ B1.nodes s.driver = d := by
   unfold stepDefault at h
   split at h
@@ -105,7 +105,7 @@ theorem stepDefault_frame {B B1 : BState} {ty : Ty} {d : Val} (h : stepDefault B
     simp only [mkNode, Option.some.injEq] at h
     subst h
     have e1 : Ext B.nodes ((B.nodes.push (.const d)).push (.dflt B.nodes.size)) := (Ext.push _ _).trans (Ext.push _ _)
-    refine ⟨⟨?_, ?_, ?_, ?_, hw.pos⟩, ⟨e1, rfl, Nat.le_refl _⟩, rfl, rfl, hc.1, _, rfl, rfl, by simp [Array.size_push], ?_⟩
+    refine ⟨⟨?_, ?_, ?_, ?_, hw.pos⟩, ⟨e1, rfl, Nat.le_refl _⟩, rfl, hc.1, _, rfl, rfl, by simp [Array.size_push], ?_⟩
     · intro x s hx
       simp only at hx
       rw [List.getElem?_append] at hx
@@ -130,13 +130,13 @@ theorem stepDefault_frame {B B1 : BState} {ty : Ty} {d : Val} (h : stepDefault B
 theorem stepDefault_active {B B1 : BState} {ty : Ty} {d : Val} {env : List Val}
     (h : stepDefault B ty d = some B1) (hw : WF B) (ha : Agree ρ B.nodes B.sigs env) :
     Agree ρ B1.nodes B1.sigs (env ++ [d]) := by
-  obtain ⟨_, hf, _, _, hl, s, hs, hty, _, hval⟩ := stepDefault_frame (ρ := ρ) h hw
+  obtain ⟨_, hf, _, hl, s, hs, hty, _, hval⟩ := stepDefault_frame (ρ := ρ) h hw
   rw [hs]
   exact agree_append ha hw.sigs hf.ext s d hval (by rw [hty]; exact hl)
 
 theorem stepDefault_keeps {B B1 : BState} {ty : Ty} {d : Val} (tid : Nat) (h : stepDefault B ty d = some B1) (hw : WF B) :
     Keeps ρ tid B B1 := by
-  obtain ⟨_, hf, _, _, _, s, hs, _⟩ := stepDefault_frame (ρ := ρ) h hw
+  obtain ⟨_, hf, _, _, s, hs, _⟩ := stepDefault_frame (ρ := ρ) h hw
   exact keeps_of_append tid hw hf.ext _ hs
 
 /-! ### the conditional multiplexer -/
@@ -215,7 +215,7 @@ theorem stepAssign_inv {B B1 : BState} {x : Nat} {p : List Sel} {e : Expr} (h : 
         · simp at h
 
 theorem stepAssign_frame {B B1 : BState} {x : Nat} {p : List Sel} {e : Expr} (h : stepAssign B x p e = some B1) (hw : WF B) :
-    WF B1 ∧ Frame B B1 ∧ B1.lastCond = B.lastCond ∧ B1.clash = B.clash ∧ B1.sigs.length = B.sigs.length := by
+    WF B1 ∧ Frame B B1 ∧ B1.lastCond = B.lastCond ∧ B1.sigs.length = B.sigs.length := by
   obtain ⟨ns, rhs, t, s, ns2, inn, hb, hs, hp, ha, rfl⟩ := stepAssign_inv h
   obtain ⟨e1, l1⟩ := buildExpr_ext e _ _ _ _ hb hw.sigs
   obtain ⟨e2, l2⟩ := assignPathB_ext rhs p _ _ _ _ _ ha (hw.sigs.mono e1) (e1.lt (hw.sigs x s hs)) l1
@@ -223,7 +223,7 @@ theorem stepAssign_frame {B B1 : BState} {x : Nat} {p : List Sel} {e : Expr} (h 
   obtain ⟨e3, l3, _, _⟩ := condMux_spec (ρ := []) B ns2 s t.isBit inn l2 (e12.lt (hw.sigs x s hs))
     (fun sc hsc => e12.lt (hw.scopes sc hsc).full)
   have e123 := e12.trans e3
-  refine ⟨⟨?_, ?_, ?_, ?_, hw.pos⟩, ⟨e123, rfl, Nat.le_refl _⟩, rfl, rfl, by simp⟩
+  refine ⟨⟨?_, ?_, ?_, ?_, hw.pos⟩, ⟨e123, rfl, Nat.le_refl _⟩, rfl, by simp⟩
   · intro y sy hy
     simp only at hy
     rw [List.getElem?_set] at hy
